@@ -36,8 +36,8 @@ impl Monitor for C07 {
     }
     fn cases(&self, tier: Tier) -> u64 {
         match tier {
-            Tier::Quick => 12_000,
-            Tier::Thorough => 400_000,
+            Tier::Quick => 80_000,
+            Tier::Thorough => 1_500_000,
         }
     }
     fn required_counters(&self) -> Vec<&'static str> {
@@ -47,7 +47,10 @@ impl Monitor for C07 {
     fn run_case(&self, index: u64, seed: u64, _tier: Tier, rep: &mut CaseReport) {
         let mut rng = Rng::new(seed);
         let generous = *rng.pick(&[100u64, 250, 250, 500]);
-        let p = gen_problem(&mut rng, Some((index % 6) as usize), generous);
+        let mut p = gen_problem(&mut rng, Some((index % 6) as usize), generous);
+        if std::env::var("RTA_SCALAR_ONLY").is_ok() {
+            crate::monitors::c17::scalarize(&mut p);
+        }
         rep.sample = Some(p.to_json());
         let (sup, _) = p.sup();
         let sbf = sbf_table_for(sup, generous);
@@ -70,9 +73,12 @@ impl Monitor for C07 {
         for lim in limits {
             let mut q = p.clone();
             q.set_limit(lim);
-            let expected = match &o.outcome {
-                Outcome::Ok(v) if lim >= o.needed_limit => Outcome::Ok(*v),
-                _ => evaluate(&q, &sbf, lim).outcome,
+            let (expected, steps_only, decisive) = match &o.outcome {
+                Outcome::Ok(v) if lim >= o.needed_limit => (Outcome::Ok(*v), o.steps_only.clone(), o.decisive_offset),
+                _ => {
+                    let e = evaluate(&q, &sbf, lim);
+                    (e.outcome, e.steps_only, e.decisive_offset)
+                }
             };
             if expected == Outcome::AssumptionViolated {
                 rep.inconclusive = Some("evaluator's supply table too short".to_string());
@@ -84,14 +90,27 @@ impl Monitor for C07 {
             let got = run_lib(&q);
             hooks::set_item_observer(None);
             match got {
-                Err(_) => rep.count("library_panicked_or_out_of_fuel (decided by C20)", 1),
+                Err(c) => rep.violation(
+                    format!("C07 analysis={} kind={}-where-evaluation-is-defined class={}", p.name(), c.kind, c.class()),
+                    jobj! {"problem" => q.to_json(), "caught" => c.to_json(), "exhaustive_evaluation" => expected.to_json(), "needed_limit" => o.needed_limit},
+                ),
                 Ok(got) => {
                     rep.count("results_compared", 1);
                     rep.count(&format!("results_compared[{}]", p.name()), 1);
                     if expected.is_err() {
                         rep.count("results_compared_err", 1);
                     }
-                    if got != expected {
+                    if got != expected && steps_only.as_ref() == Some(&got) {
+                        // the library equals the evaluation restricted to the step offsets of the analysed
+                        // callback's demand, but some NON-step offset yields a larger value / diverges:
+                        // pruning the search space is not lossless on this input
+                        let wher = decisive.map(|d| d.1).unwrap_or("?");
+                        rep.violation(
+                            format!("C07 analysis={} kind=pruning-to-step-offsets-changes-the-result where={}", p.name(), wher),
+                            jobj! {"problem" => q.to_json(), "library" => got.to_json(), "evaluation_over_every_offset" => expected.to_json(),
+                            "evaluation_over_step_offsets_only" => steps_only.as_ref().map(|o| o.to_json()), "decisive_offset" => decisive.map(|d| d.0)},
+                        );
+                    } else if got != expected {
                         let kind = match (&got, &expected) {
                             (Outcome::Ok(a), Outcome::Ok(b)) if a < b => "value-below-exhaustive-evaluation",
                             (Outcome::Ok(_), Outcome::Ok(_)) => "value-above-exhaustive-evaluation",
